@@ -513,6 +513,27 @@ func c02(c *Ctx) {
 	// ---------- N7 error and iterator discipline of the functions that fold, write and load snapshots
 	{
 		nErr, nPos := 0, 0
+		namedN7 := map[*load.FuncInfo]bool{}
+		defer func() {
+			// … and any other function of package main that handles a LevelDB iterator (a reader goroutine, a copy helper)
+			for _, fi := range c.P.FuncsIn("main") {
+				if fi.Body() == nil || namedN7[fi] {
+					continue
+				}
+				uses := false
+				ast.Inspect(fi.Body(), func(n ast.Node) bool {
+					if e, ok := n.(ast.Expr); ok && !uses {
+						if t := fi.Info().TypeOf(e); t != nil && strings.HasSuffix(t.String(), "leveldb/iterator.Iterator") {
+							uses = true
+						}
+					}
+					return !uses
+				})
+				if uses {
+					c.iteratorBuffers("C02.N7", fi)
+				}
+			}
+		}()
 		for _, name := range []string{"main.(*FSM).Snapshot", "main.(*FSM).Restore", "main.(*FSM).decodeProtobuf", "main.(*FSM).decodeJson", "main.(*robustSnapshot).Persist", "main.(*robustSnapshot).persistJSON", "main.writeLenPrefixed", "main.(*FSM).Apply", "main.(*FSM).applyProto"} {
 			fi := c.MustFunc(name)
 			if fi == nil || fi.Body() == nil {
@@ -520,6 +541,7 @@ func c02(c *Ctx) {
 			}
 			nErr += c.errorDiscipline("C02.N7", fi, "a snapshot (or the log copy it is folded from) is reported as written / loaded although a step failed")
 			nPos += c.iteratorDiscipline("C02.N7", fi)
+			namedN7[fi] = true
 		}
 		r.Ok("C02.N7", "main", "error definitions and iterator positioning calls inspected", "-", itoa(nErr)+" / "+itoa(nPos))
 		if nErr < 10 || nPos < 4 {
